@@ -140,6 +140,10 @@ def run(check, ctx):
     check.floor("G", 25)
     from . import c11_extra
     c11_extra.run(check, ctx)
-    check.undecided.append("pairwise distinctness of counter blocks for every layout "
-                           "(increment_be/le, 8-block look-ahead in C)")
+    # C side: counter block i is base + i modulo 256^counter_len for every layout in the table, and the
+    # wrap is refused (raw_ctr.c interpreted with an uninterpreted cipher)
+    from . import c_modes
+    c_modes.mode_tables(check, ctx, ("ctr", "ctrwrap"), rule="K-sym")
+    check.floor("K-sym", 2)
+    check.undecided.append("counter layouts and start values outside the enumerated table")
     check.undecided.append("data returned before the failure is correct keystream")
